@@ -6,11 +6,12 @@
 (*   behave/formatter/json.py      JSONFormatter  (JsonFmt: the report     *)
 (*        under construction `current_feature_data["elements"]`, the       *)
 (*        cursor `_step_index`, `current_scenario`,                        *)
-(*        finish_current_scenario writes into elements[-1]; every partial  *)
-(*        operation -- assert, ["elements"] of a dict without that key,    *)
-(*        steps[_step_index] beyond the list, iterating `arguments = None` *)
-(*        of a MatchWithError, writing to a closed stream -- is an         *)
-(*        explicit CRASH state),                                           *)
+(*        finish_current_scenario writes into elements[-1] -- called by    *)
+(*        background() too since the repair of DESIGN section 8 #12; every *)
+(*        partial operation -- assert, ["elements"] of a dict without that *)
+(*        key, steps[_step_index] beyond the list, writing to a closed     *)
+(*        stream -- is an explicit CRASH state; a MatchWithError carries   *)
+(*        arguments = [] since the repair of #11),                         *)
 (*   behave/formatter/plain.py     PlainFormatter (PlainFmt: the queue     *)
 (*        `steps`, reset by feature / rule / background / scenario,        *)
 (*        result() prints the POPPED step with the popped step's status),  *)
@@ -20,7 +21,8 @@
 (*        (SProgFmt),                                                      *)
 (*   behave/json_parser.py         JsonParser (ReadBack: background        *)
 (*        elements become feature.background, scenarios are added with     *)
-(*        the background current at that moment).                          *)
+(*        the background current at that moment, use_background = False    *)
+(*        since the repair of #13).                                        *)
 (* They are fed with the `fmt` events of Run.tla's alphabet:               *)
 (*   uri feature rule background scenario step match result rule_finished  *)
 (*   eof close,   event = [name, el, pos, status, undef, bad, n]           *)
@@ -39,8 +41,9 @@
 (* (P) the clauses of C15 over (events, model after the run, reports):     *)
 (*   Grammar  JsonMirror  JsonValid  ReadBackClause  PlainOnce             *)
 (*   ProgressOnce  Agree  -- each returns a set of <<clause[/family],      *)
-(*   detail>>; the families name the genuine defects of the code as it is  *)
-(*   (DESIGN section 8 #4 #11 #12 #13), each guarded by a narrow predicate.*)
+(*   detail>>; the one family left names the known finding of the code as  *)
+(*   it is (DESIGN section 8 #4, dry-run half), guarded by a narrow        *)
+(*   predicate.  #11 #12 #13 are repaired: a return is a plain violation.  *)
 (*                                                                         *)
 (* X = [dry, nsteps, defd, st, sst]: functions of the element id -- number *)
 (* of steps of a scenario (0 otherwise), which steps have a definition,    *)
@@ -61,16 +64,9 @@ SstOf(X, el, p) == IF el \in DOMAIN X.sst /\ p \in DOMAIN X.sst[el] THEN X.sst[e
 NOf(X, el) == IF el \in DOMAIN X.nsteps THEN X.nsteps[el] ELSE 0
 DefOf(X, el, p) == IF el \in DOMAIN X.defd /\ p \in DOMAIN X.defd[el] THEN X.defd[el][p] ELSE TRUE
 
-\* repairs that can be switched on (RepairedHolds of Consumers_MC: with all of them no clause fires)
-\*   bgfinish  json.py background(): finish_current_scenario(); current_scenario = None          (DESIGN section 8 #12)
-\*   argsnone  matchers.py MatchWithError: arguments = []                                        (#11)
-\*   rbdedup   json_parser.py: a scenario read back does not get the background steps again      (#13)
-\*   dryundef  model.py Scenario.run: a dry run reports undefined steps with match(NoMatch) + result   (#4; generator side)
-NoFix  == [bgfinish |-> FALSE, argsnone |-> FALSE, rbdedup |-> FALSE]
-AllFix == [bgfinish |-> TRUE, argsnone |-> TRUE, rbdedup |-> TRUE]
-\* THE CODE AS IT IS in /repo: switch a field to TRUE in the commit that repairs the defect, so that (S) keeps following
-\* the code (the DIVERGE count of props/c15.py shows when this was forgotten)
-CodeFix == [bgfinish |-> FALSE, argsnone |-> FALSE, rbdedup |-> FALSE]
+\* THE CODE AS IT IS in /repo (generator side, used by Consumers_MC and by the attribution rule of Consumers_Trace):
+\*   dryundef  model.py Scenario.run: a dry run reports undefined steps with match(NoMatch) + result -- NOT repaired
+\*             (known finding, DESIGN section 8 #4); switch to TRUE in the commit that repairs it
 CodeGen == [dryundef |-> FALSE]
 
 \* ======================================================================= JsonFmt  (formatter/json.py)
@@ -88,12 +84,13 @@ JFinish(s, X) == IF s.cur = 0 THEN s
 \* add_feature_element
 JAdd(s, x) == IF ~s.cfd THEN JCrash(s, "AssertionError") ELSE [s EXCEPT !.els = Append(@, x), !.idx = 0]
 
-JNext(s, e, X, fx) ==
+JNext(s, e, X) ==
    IF s.crash # "" THEN s
    ELSE CASE e.name = "feature" ->              \* reset(); current_feature_data = {...}
                [s EXCEPT !.cfd = TRUE, !.feat = e.el, !.els = <<>>, !.idx = 0, !.cur = 0]
-          [] e.name = "background" ->           \* add element, _step_index = 0, self.step(s) for the background's own steps
-               LET s1 == IF fx.bgfinish THEN [JFinish(s, X) EXCEPT !.cur = 0] ELSE s IN
+          [] e.name = "background" ->           \* finish_current_scenario(); current_scenario = None; add element,
+                                                \* _step_index = 0, self.step(s) for the background's own steps
+               LET s1 == [JFinish(s, X) EXCEPT !.cur = 0] IN
                IF s1.crash # "" THEN s1 ELSE JAdd(s1, JElem("background", 0, [k \in 1..e.n |-> JStep(k)]))
           [] e.name = "scenario" ->             \* finish_current_scenario(); current_scenario = scenario; add element
                LET s1 == JFinish(s, X) IN
@@ -101,9 +98,9 @@ JNext(s, e, X, fx) ==
           [] e.name = "step" ->
                IF JCfe(s) # "" THEN JCrash(s, JCfe(s))
                ELSE [s EXCEPT !.els[Len(s.els)].steps = Append(@, JStep(e.pos))]
-          [] e.name = "match" ->                \* for argument in match.arguments; if match.location: steps[_step_index]["match"]
-               IF e.bad /\ ~fx.argsnone THEN JCrash(s, "TypeError")
-               ELSE IF e.undef THEN s
+          [] e.name = "match" ->                \* for argument in match.arguments ([] for NoMatch and MatchWithError);
+                                                \* if match.location: steps[_step_index]["match"]
+               IF e.undef THEN s
                ELSE IF JCfe(s) # "" THEN JCrash(s, JCfe(s))
                ELSE IF s.idx + 1 > Len(s.els[Len(s.els)].steps) THEN JCrash(s, "IndexError")
                ELSE [s EXCEPT !.els[Len(s.els)].steps[s.idx + 1].match = TRUE]
@@ -123,7 +120,7 @@ JNext(s, e, X, fx) ==
                IF ~s.open THEN JCrash(s, "ClosedStream")
                ELSE [s EXCEPT !.toks = @ \o (IF s.count = 0 THEN <<"[">> ELSE <<>>) \o <<"]">>, !.open = FALSE]
           [] OTHER -> s                         \* uri, rule, rule_finished: Formatter base class, no-ops
-JsonRun(evs, X, fx) == Fold(LAMBDA s, e : JNext(s, e, X, fx), JInit, evs, 1)
+JsonRun(evs, X) == Fold(LAMBDA s, e : JNext(s, e, X), JInit, evs, 1)
 \* the text written is a JSON list:  [ F (, F)* ]  or  [ ]
 ToksValid(t) == /\ Len(t) >= 2 /\ t[1] = "[" /\ t[Len(t)] = "]"
                 /\ (Len(t) = 2 \/ Len(t) % 2 = 1)
@@ -131,17 +128,18 @@ ToksValid(t) == /\ Len(t) >= 2 /\ t[1] = "[" /\ t[Len(t)] = "]"
 
 \* ======================================================================= ReadBack  (json_parser.py on the tree the JSON text holds)
 \* -> Seq([el, scens: Seq([el, npre, steps: Seq([pos, status])])]); npre = steps that all_steps has in front of `steps`
+\* (always 0: add_feature_element sets scenario.use_background = False, the scenario's steps hold the background steps)
 RBStatus(s) == IF s = "" THEN "untested" ELSE s
-RBFeature(f, fx) ==
+RBFeature(f) ==
    LET RECURSIVE Walk(_,_,_)
        Walk(i, nbg, acc) ==
           IF i > Len(f.els) THEN acc
           ELSE LET x == f.els[i] IN
                IF x.type = "background" THEN Walk(i + 1, Len(x.steps), acc)      \* feature.background = background
-               ELSE Walk(i + 1, nbg, Append(acc, [el |-> x.el, npre |-> IF fx.rbdedup THEN 0 ELSE nbg,
+               ELSE Walk(i + 1, nbg, Append(acc, [el |-> x.el, npre |-> 0,
                                                  steps |-> [k \in DOMAIN x.steps |-> [pos |-> x.steps[k].pos, status |-> RBStatus(x.steps[k].status)]]]))
    IN [el |-> f.el, scens |-> Walk(1, 0, <<>>)]
-ReadBack(J, fx) == [k \in DOMAIN J |-> RBFeature(J[k], fx)]
+ReadBack(J) == [k \in DOMAIN J |-> RBFeature(J[k])]
 
 \* ======================================================================= PlainFmt  (formatter/plain.py)
 PInit == [q |-> <<>>, scen |-> 0, lines |-> <<>>, open |-> TRUE, crash |-> ""]
@@ -206,8 +204,6 @@ SPNext(s, e, X) ==
           [] OTHER -> s
 SProgRun(evs, X) == Fold(LAMBDA s, e : SPNext(s, e, X), SPInit, evs, 1)
 
-\* pretty.py: match() hands match.arguments to print_step, which iterates it (the rest of the formatter is not modelled)
-PrettyCrash(evs, fx) == IF ~fx.argsnone /\ \E i \in DOMAIN evs : evs[i].name = "match" /\ evs[i].bad THEN "TypeError" ELSE ""
 
 \* ======================================================================= analysis of an event stream (computed once)
 \* shown = Seq([feat, scens]) in announcement order; res[s] = positions of the result events of scenario s in order
@@ -228,9 +224,6 @@ Processed(a, s, p) == \E k \in DOMAIN ResOf(a, s) : ResOf(a, s)[k] = p
 DryGap(a, X, s) == X.dry /\ \E p, q \in 1..NOf(X, s) : p < q /\ ~DefOf(X, s, p) /\ ~Processed(a, s, p) /\ Processed(a, s, q)
 Fam(clause, family) == IF family = "none" THEN clause ELSE clause \o "/" \o family
 KF_DRY == "dryrun_undefined_no_callbacks"
-KF_BG  == "status_on_rule_background"
-KF_ARG == "match_arguments_none"
-KF_RB  == "background_duplicated"
 
 \* ======================================================================= C15.grammar
 \*   ( uri ( feature ( scenario step^n (match result)^m )* eof )? )* close       m <= n, steps 1..n, results 1..m
@@ -273,11 +266,6 @@ Grammar(evs, X, a) ==
 \* ======================================================================= C15.json_mirror
 \* J = Seq([el, status, els: Seq([type, el, status, steps: Seq([pos, match, status])])])   ("" = no status / null)
 ScenEls(f) == SelectSeq(f.els, LAMBDA x : x.type = "scenario")
-\* the defect of DESIGN section 8 #12, as narrow as it is: the background element j carries exactly the status of the
-\* scenario element in front of it (only background elements in between) and that scenario element carries none
-OnlyBgBetween(els, i, j) == \A m \in (i + 1)..(j - 1) : els[m].type = "background"
-BgCarries(els, j, X) == \E i \in 1..(j - 1) : /\ els[i].type = "scenario" /\ els[i].status = "" /\ OnlyBgBetween(els, i, j)
-                                              /\ els[j].status # "" /\ els[j].status = StOf(X, els[i].el)
 JShape(J) == [k \in DOMAIN J |-> [feat |-> J[k].el, scens |-> LET q == ScenEls(J[k]) IN [j \in DOMAIN q |-> q[j].el]]]
 JsonMirror(J, X, a) ==
    (IF JShape(J) # a.shown THEN {<<"C15.json_mirror", "features_or_scenarios">>} ELSE {})
@@ -289,11 +277,9 @@ JsonMirror(J, X, a) ==
          IF x.type = "background"
          THEN \* a status on a background element belongs to some other element
               IF x.status = "" THEN {}
-              ELSE {<<Fam("C15.json_mirror", IF BgCarries(f.els, i, X) THEN KF_BG ELSE "none"), "status_on_background">>}
+              ELSE {<<"C15.json_mirror", "status_on_background">>}
          ELSE (IF x.status = StOf(X, x.el) THEN {}
-               ELSE {<<Fam("C15.json_mirror", IF x.status = "" /\ \E j \in (i + 1)..Len(f.els) : f.els[j].type = "background" /\ BgCarries(f.els, j, X)
-                                                                                                       /\ OnlyBgBetween(f.els, i, j)
-                                              THEN KF_BG ELSE "none"), "scenario_status">>})
+               ELSE {<<"C15.json_mirror", "scenario_status">>})
               \cup (IF [p \in DOMAIN x.steps |-> x.steps[p].pos] = Ids(NOf(X, x.el)) THEN {} ELSE {<<"C15.json_mirror", "steps">>})
               \cup (IF \A p \in DOMAIN x.steps :
                           LET sp == x.steps[p] IN
@@ -312,10 +298,8 @@ ReadBackClause(RB, J) ==
       UNION {
          LET rb == RB[k].scens[j]
              x == q[j]
-             bgBefore == \E i \in DOMAIN J[k].els : J[k].els[i].type = "background" /\
-                             \E i2 \in DOMAIN J[k].els : i2 > i /\ J[k].els[i2].type = "scenario" /\ J[k].els[i2].el = x.el
          IN
-         (IF rb.npre = 0 THEN {} ELSE {<<Fam("C15.json_readback", IF bgBefore THEN KF_RB ELSE "none"), "all_steps_longer">>})
+         (IF rb.npre = 0 THEN {} ELSE {<<"C15.json_readback", "all_steps_longer">>})
          \cup (IF [p \in DOMAIN rb.steps |-> rb.steps[p].pos] = [p \in DOMAIN x.steps |-> x.steps[p].pos] THEN {} ELSE {<<"C15.json_readback", "steps">>})
          \cup (IF \A p \in DOMAIN rb.steps \cap DOMAIN x.steps : x.steps[p].status # "" => rb.steps[p].status = x.steps[p].status
                THEN {} ELSE {<<"C15.json_readback", "step_status">>})
@@ -359,12 +343,8 @@ Agree(J, hasJ, lines, hasP, p3, has3, X, a) ==
       IN IF Cardinality(views) <= 1 THEN {} ELSE {<<Fam("C15.agree", IF DryGap(a, X, s) THEN KF_DRY ELSE "none"), "reports_differ">>}
       : s \in a.scens}
 
-\* the named exception predicates of the defect families, under the names of DESIGN.md
+\* the named exception predicate of the one defect family left, under the name of DESIGN.md
 KF_C15_dryrun_undefined_no_callbacks(a, X, s) == DryGap(a, X, s)
-KF_C15_json_status_on_rule_background(els, j, X) == BgCarries(els, j, X)
-KF_C15_match_arguments_none(e, fx) == e.name = "match" /\ e.bad /\ ~fx.argsnone
-KF_C15_readback_background_duplicated(rb) == rb.npre > 0
-\* families of the code as it is (DESIGN section 8 #4 #11 #12 #13): modelled by (S), rejected by (P)
-KnownFamilies == {"C15.grammar/" \o KF_DRY, "C15.json_mirror/" \o KF_DRY, "C15.plain_once/" \o KF_DRY, "C15.agree/" \o KF_DRY,
-                  "C15.json_mirror/" \o KF_BG, "C15.no_crash/" \o KF_ARG, "C15.json_readback/" \o KF_RB}
+\* family of the code as it is (DESIGN section 8 #4, known finding): modelled by (S), rejected by (P)
+KnownFamilies == {"C15.grammar/" \o KF_DRY, "C15.json_mirror/" \o KF_DRY, "C15.plain_once/" \o KF_DRY, "C15.agree/" \o KF_DRY}
 =============================================================================
